@@ -6,6 +6,12 @@ def build(P):
     P.category = "other"
     H.setup(P)
     H.add_handlers(P, ("C01",))
+    P.native("corpus-vs-reference", "natives.c01:corpus", kind="bounded", clause="C01:", timeout=900,
+             bound="about 70 generated machines (every state type; 11 InputPath/Parameters/ResultPath/OutputPath variants on Pass and "
+                   "Task, ResultSelector, Choice with Default / without, Retry, Catch, Parallel, Map with ItemSelector and MaxConcurrency, "
+                   "nesting) x 2 inputs, FIFO plus 3 other schedules for the fan-out machines: terminal status and output (or error "
+                   "name) compared with a reference interpreter of the States Language (natives/refasl.py); generic C02/C03/C09 "
+                   "invariants on every run")
     P.explanation = ("Per-state step lemmas proved on the real handlers: the data handed to the next state / terminal route "
                      "equals the States Language pipeline (InputPath, Parameters, work, ResultSelector, ResultPath into the RAW "
                      "input, OutputPath) expressed over uninterpreted AP/EPT/RP, so only calling the real path functions with "
